@@ -469,6 +469,19 @@ def rule_ir_not_mutated(repo: Repo, rep: Report, rule: str = "R13.8") -> None:
                         if ds and all(k == "assign" and isinstance(v, (ast.Attribute, ast.Subscript, ast.Name)) for k, v, _ in ds) and len(ds) == 1:
                             cur = ds[0][1]
                             continue
+                        # an element: the variable of a loop over such a path (`for param in op.parameters`) - copies of the *container*
+                        # (list / sorted / enumerate / reversed / .values()) still hold the same element objects
+                        if len(ds) == 1 and ds[0][0].startswith("for") and ds[0][1] is not None:
+                            it = ds[0][1]
+                            for _ in range(3):
+                                if isinstance(it, ast.Call) and isinstance(it.func, ast.Name) and it.func.id in ("enumerate", "list", "sorted", "reversed", "tuple") and it.args:
+                                    it = it.args[0]
+                                elif isinstance(it, ast.Call) and isinstance(it.func, ast.Attribute) and it.func.attr in ("values", "items") and not it.args:
+                                    it = it.func.value
+                            if isinstance(it, (ast.Attribute, ast.Subscript)):
+                                cur = it
+                                depth += 1
+                                continue
                     break
                 if isinstance(cur, ast.Name) and cur.id in ops and depth >= 1:
                     return cur.id
